@@ -438,3 +438,68 @@ def rule_fail(ctx, R):
         if bad:
             R.finding(ha, "failed-auth-edge:side-effect", "the failed-AUTH path performs a state-changing call (line %d)" % b.bb_line(bad[0]), b.loc(bad[0]))
     R.floor("password_comparisons", n)
+
+
+# ---- R-AUTH-PWSRC -------------------------------------------------------------------------------
+ALTERING = re.compile(r"::(to_lowercase|to_uppercase|to_ascii_lowercase|to_ascii_uppercase|make_ascii_lowercase|make_ascii_uppercase|"
+                      r"from_utf8_lossy|to_string_lossy|replace|replacen|truncate|split_off|retain|trim_matches|trim_start_matches|trim_end_matches|"
+                      r"strip_prefix|strip_suffix|chars|bytes|escape_default|escape_debug)(::<.*>)?$")
+
+
+def _flow_calls(ctx, fn, operand, seen, depth=0):
+    """callees on the (interprocedural, backward) data flow that produces `operand` in fn"""
+    b = ctx.prog.bodies.get(fn)
+    if b is None or depth > 6 or op_is_const(operand):
+        return set()
+    P = prov.operand_origins(b, operand, deep=True)
+    calls = {(r[1], fn, r[2]) for r in P.roots if r[0] == "call"} | {(c, fn, bb) for c, bb in P.via}
+    for p in P.params():
+        key = (fn, p)
+        if key in seen:
+            continue
+        seen.add(key)
+        for caller in ctx.cg.callers.get(fn, ()):
+            cb = ctx.prog.bodies.get(caller)
+            if cb is None:
+                continue
+            for i, t in cb.calls():
+                if callee(t) == fn and len(t["a"]) >= p:
+                    calls |= _flow_calls(ctx, caller, t["a"][p - 1], seen, depth + 1)
+    return calls
+
+
+def rule_pwsrc(ctx, R):
+    """`only the exact password authenticates`: the configured password reaches the field the gate
+    and AUTH compare against exactly as it was written (command line or config file): no case
+    mapping, lossy decoding, replacement or cutting on the data flow into a `password` field"""
+    n = 0
+    for fn, b in sorted(ctx.prog.bodies.items()):
+        if not fn.startswith(("config::", "main", "network::")) or "::tests::" in fn:
+            continue
+        k = 0
+        for i, bb in enumerate(b.bbs):
+            if bb.get("cleanup"):
+                continue
+            for st in bb["s"]:
+                if st["k"] != "=":
+                    continue
+                fields = [e["f"] for e in st["l"]["p"] if isinstance(e, dict) and "f" in e]
+                ops = []
+                if fields and fields[-1].endswith(".password") and st["r"]["k"] == "use":
+                    ops = [st["r"]["o"]]
+                elif st["r"]["k"] == "agg" and "fs" in st["r"] and "password" in st["r"]["fs"] and st["r"]["a"].startswith("config::"):
+                    ops = [st["r"]["o"][st["r"]["fs"].index("password")]]
+                for o in ops:
+                    if op_is_const(o):
+                        continue
+                    n += 1
+                    calls = _flow_calls(ctx, fn, o, set())
+                    bad = sorted({(c, f_, bb_) for (c, f_, bb_) in calls if ALTERING.search(c)})
+                    R.inst(fn, "password-store#%d" % k, {"function": fn, "at": "%s:%s" % (b.file, st.get("line")), "calls_on_the_flow": len(calls), "altering": [c.split("::")[-1] for c, _, _ in bad]})
+                    if bad:
+                        c, f_, bb_ = bad[0]
+                        fb = ctx.prog.bodies[f_]
+                        R.finding(fn, "password-store#%d:altered-by:%s" % (k, re.search(r"::(\w+)(::<.*>)?$", c).group(1)),
+                                  "the password stored at line %s has passed through %s (%s): the server's password is no longer the configured text, so a different string authenticates and the exact one may not" % (st.get("line"), c.split("::")[-1], fb.loc(bb_)), "%s:%s" % (b.file, st.get("line")))
+                    k += 1
+    R.floor("password_stores", n)
